@@ -456,6 +456,23 @@ def corpus():
                    con("i1", "a", S("bb"), form)]
             for cut in (0, 3, len(ops)):
                 out.append({"design": d, "style": "proc", "history": {"Top": {"pre": ops[:cut], "post": ops[cut:]}}})
+    # one AnonymousBundle object on two bundle ports; one of them is then re-connected by a dict
+    lf = gen_design.leaf_sig
+    bdef = {"name": "B", "tree": {"sigs": [lf("x", 1), lf("y", 1)], "subs": []}}
+    R = copy.deepcopy(gen_design.LEAVES[3])
+    inner = {"name": "Inner", "sigs": [], "bundles": [{"n": "b1", "of": "B", "port": True}, {"n": "b2", "of": "B", "port": True}],
+             "insts": [{"n": f"r{k}", "of": copy.deepcopy(R), "conns": [["p", {"k": "bref", "root": f"b{k}", "path": ["x"]}], ["n", {"k": "bref", "root": f"b{k}", "path": ["y"]}]]} for k in (1, 2)]}
+    shared = {"k": "anon", "id": 1, "fields": [["x", S("s1")], ["y", S("s2")]]}
+    fresh = {"k": "anon", "fields": [["x", S("s3")], ["y", S("s4")]]}
+    for form in ("dict", "connect", "setattr"):
+        top = {"name": "Top", "sigs": [sg("s1", 1), sg("s2", 1), sg("s3", 1), sg("s4", 1)], "bundles": [],
+               "insts": [{"n": "i", "of": {"k": "module", "name": "Inner"}, "conns": [["b1", copy.deepcopy(fresh)], ["b2", copy.deepcopy(shared)]]}]}
+        d = {"bundles": [bdef], "top": "Top", "modules": [inner, top]}
+        ops = [con("i", "b1", copy.deepcopy(shared)), con("i", "b2", copy.deepcopy(shared)), con("i", "b1", copy.deepcopy(fresh), form)]
+        for cut in (0, 2, len(ops)):
+            hist = gen_history(random.Random(0), d, intensity=0.0)  # the other modules: their final connections, nothing else
+            hist["Top"] = {"pre": ops[:cut], "post": ops[cut:]}
+            out.append({"design": d, "style": "proc", "history": hist})
     # a chain i3.b -> i2.b -> i1.b, its middle re-connected after the outer reference was taken
     insts = [{"n": "i1", "of": E1, "conns": [["a", S("aa")], ["b", S("x")]]}, {"n": "i2", "of": E1, "conns": [["a", S("aa")], ["b", S("y")]]},
              {"n": "i3", "of": E1, "conns": [["a", S("aa")], ["b", P("i2", "b")]]}]
